@@ -407,24 +407,29 @@ func (c06Engine) Gen(g *Gen) {
 	// so that an answer that aliases or memoises another file's answer is asked for again after the
 	// other file was asked (detection must not depend on the random history)
 	for _, hw := range hubWorlds() {
-		c := hw
-		c.Ops = []opJ{}
-		var fis []int
-		for fi := range c.Files {
-			fis = append(fis, fi) // every file: leaves matter for Dependents(), importers for the import relations
-		}
-		for _, acc := range []string{"transitive", "imports", "dependents", "unused"} {
-			for pass := 0; pass < 3; pass++ {
-				for k := range fis {
-					fi := fis[k]
-					if pass == 2 {
-						fi = fis[len(fis)-1-k]
+		// two histories per world: leaves first (request order, again, reversed) and roots first
+		// (reversed, request order, reversed) - a memo filled while another file's walk passes
+		// through is only wrong if that other file is asked FIRST
+		for variant := 0; variant < 2; variant++ {
+			c := hw
+			c.Ops = []opJ{}
+			var fis []int
+			for fi := range c.Files {
+				fis = append(fis, fi) // every file: leaves matter for Dependents(), importers for the import relations
+			}
+			for _, acc := range []string{"transitive", "imports", "dependents", "unused"} {
+				for pass := 0; pass < 3; pass++ {
+					for k := range fis {
+						fi := fis[k]
+						if (pass == 2) != (variant == 1 && pass != 1) {
+							fi = fis[len(fis)-1-k]
+						}
+						c.Ops = append(c.Ops, opJ{ref{fi, []int{}}, acc})
 					}
-					c.Ops = append(c.Ops, opJ{ref{fi, []int{}}, acc})
 				}
 			}
+			worlds = append(worlds, c)
 		}
-		worlds = append(worlds, c)
 	}
 	// systematic histories on message graphs (chains of 2..5 messages, a fork, a cycle with a tail):
 	// both closures asked of every message top-down, again top-down, bottom-up, top-down - so that a
